@@ -426,7 +426,10 @@ func (ea *errAnalysis) nonNilError(v ssa.Value, at *ssa.BasicBlock, seen map[ssa
 		case "fmt.Errorf", "errors.New":
 			return true
 		}
-		return false
+		if fn := staticCallee(x); fn != nil && fn.Signature.Results().Len() == 1 && ea.alwaysErrors(fn) {
+			return true
+		}
+		return ea.knownNonNilAt(v, at)
 	case *ssa.Extract:
 		if c, ok := x.Tuple.(*ssa.Call); ok {
 			if fn := staticCallee(c); fn != nil && x.Index == fn.Signature.Results().Len()-1 && ea.alwaysErrors(fn) {
